@@ -33,7 +33,7 @@ import nitfparse
 import sargen
 
 GEN_PATH = os.path.join(VERIF, 'lean', 'SarpyModel', 'Gen', 'Hdr.lean')
-REFUSED = (ValueError, KeyError, IndexError, TypeError, AttributeError)
+REFUSED = Exception      # whatever the implementation raises on a header is `refused` (errors are compared as a small enum, never by class or message)
 
 BRIDGE = ['gen_is_compressed', 'gen_raw_dtype', 'anyM_pure', 'gen_pair_test', 'gen_complex_order', 'gen_lut_info', 'gen_get_dtype', 'gen_format_function',
           'gen_nitf_reader_compliance', 'gen_nitf_writer_compliance', 'gen_glue']
@@ -465,8 +465,11 @@ def oracle_cross(fails, stats):
     try:
         for p in SICD_TYPES:
             for rows, cols in ((3, 4), (2, 9000)):
-                hdr = writer_headers('sicd', p, rows, cols, None)[0]
-                hdr = ImageSegmentHeader.from_bytes(hdr.to_bytes(), 0)
+                try:
+                    hdr = writer_headers('sicd', p, rows, cols, None)[0]
+                    hdr = ImageSegmentHeader.from_bytes(hdr.to_bytes(), 0)
+                except Exception:
+                    continue    # reported by oracle_file
                 for q in SICD_TYPES:
                     meta = sicd_meta(q, rows, cols)
                     case = {'hdr': {'kind': 'cross', 'header_of': p, 'metadata': q, 'rows': rows, 'cols': cols}}
@@ -494,7 +497,10 @@ def oracle_mislabel(rng, tmpdir, fails, stats):
         for p in SICD_TYPES:
             data, stored, table = make_pixels(rng, p, 3, 4)
             meta = sargen.small_sicd(3, 4, p, amp_table=table)
-            buf, _ = sargen.write_sicd(meta, data, 'path', tmpdir, name='mis.nitf')
+            try:
+                buf, _ = sargen.write_sicd(meta, data, 'path', tmpdir, name='mis.nitf')
+            except Exception:
+                continue        # a writer that refuses its own pixel type is reported by oracle_file
             for q in SICD_TYPES:
                 if q == p or buf.count(p.encode()) != 1:
                     continue
@@ -546,7 +552,7 @@ def run_family(family, rng, tier, tmpdir, broken, fails, disagreements, stats, s
                 try:
                     d = numpy.dtype(f'{">" if big else "<"}{kind}{n}')
                     impl = f'{show_raw(d)} {d.name}'
-                except TypeError:
+                except Exception:
                     impl = 'refused'
                 jobs.append(('numpy', {'kind': kind, 'big': big, 'n': n}, impl, drv.ask(f'hdr npdtype {big} {kind} {n}')))
     # (a) writer tables on the real writing-details objects, (b) reader / writer on those headers after a trip through bytes
